@@ -649,7 +649,7 @@ impl Group {
             // the same block three times as the items of a constant global array (items other than
             // the first sit at multiples of the item type's STRIDE, which is larger than its size
             // for structs / tagged unions with tail padding; seeded change C04_1)
-            if !matches!(p.ty, CT::Type) && !p.ty.is_str(&self.defs) {
+            if !matches!(p.ty, CT::Type) {
                 let b1 = indent(&p.body, 1);
                 s.push_str(&format!("GA{k}T :: {};\nga{k} :: GA{k}T.[\n    comptime {{\n{b1}    }},\n    comptime {{\n{b1}    }},\n    comptime {{\n{b1}    }},\n];\n", p.ty.capy()));
             }
@@ -669,7 +669,7 @@ impl Group {
             s.push_str(&format!(
                 "    {{\n        core.println(\"@ {k} nested-local\");\n        x := comptime {{\n            y := comptime {{\n{b2}            }};\n            y\n        }};\n{sh}    }}\n"
             ));
-            if !matches!(p.ty, CT::Type) && !p.ty.is_str(&self.defs) {
+            if !matches!(p.ty, CT::Type) {
                 for i in 1..=2 {
                     s.push_str(&format!("    {{\n        core.println(\"@ {k} array-item-{i}\");\n        x := ga{k}[{i}];\n{sh}    }}\n"));
                 }
@@ -1098,9 +1098,9 @@ pub fn run(tier: &str, seed: u64, widen: bool) -> Report {
                 rep.sample(json!({"stream": "e2e", "type": p.ty.capy(), "body": p.body, "runtime": rt, "comptime-global": s.get(&(k, "global".to_string()))}));
             }
             for ctx in &CTXS[1..] {
-                // a constant global array of `str` crashes the built program even without comptime
-                // (known finding `global-array-of-str`, probed separately): no array items for str / type
-                if ctx.starts_with("array-item") && (matches!(p.ty, CT::Type) || p.ty.is_str(&g.defs)) {
+                // no array items for `type` (a global array of `str` crashed the built program until
+                // fix d4b2d15: since then `str` items are compared like every other type)
+                if ctx.starts_with("array-item") && matches!(p.ty, CT::Type) {
                     continue;
                 }
                 let ct = s.get(&(k, ctx.to_string())).cloned().unwrap_or_else(|| vec!["<missing>".into()]);
@@ -1252,8 +1252,8 @@ fn stream_effects(rep: &mut Report) {
     }
 }
 
-/// Known finding: the data object of a constant global array of `str` holds the characters of the
-/// items inline where the readers expect pointers, with or without comptime blocks.
+/// Regression (fix d4b2d15): the data object of a constant global array of `str` held the characters
+/// of the items inline where the readers expect pointers, with or without comptime blocks.
 fn probe_global_str_array(rep: &mut Report) {
     let src = "core :: #mod(\"core\");\nga :: str.[ comptime { \"hello\" }, comptime { \"world\" } ];\nmain :: () {\n    core.println(ga[1]);\n}\n";
     let out = &e2e::run_all(&[Program::single(src)], e2e::Limits::default())[0];
